@@ -42,16 +42,21 @@ def absorbMember (acc : Members) (k : String) (v : Shape) : Members :=
 def absorbObject (acc : Members) (content : Members) : Members :=
   content.foldl (fun a kv => absorbMember a kv.1 kv.2) acc
 
+/-- fold 1, one later element -/
+def fold1Step (acc : Members) (s : Shape) : Members :=
+  match s.keys with
+  | some ks => markMissing acc ks
+  | none => acc
+
+/-- fold 2, one later element -/
+def fold2Step (acc : Members) (s : Shape) : Members :=
+  match s with
+  | .object c _ => absorbObject acc c
+  | _ => acc
+
 /-- the `else if elements.len() > 1 && all objects` branch, given the first object's content and the later shapes -/
 def mergeObjectElements (first : Members) (rest : List Shape) : Members :=
-  let content := rest.foldl (fun acc s =>
-    match s.keys with
-    | some ks => markMissing acc ks
-    | none => acc) first
-  rest.foldl (fun acc s =>
-    match s with
-    | .object c _ => absorbObject acc c
-    | _ => acc) content
+  rest.foldl fold2Step (rest.foldl fold1Step first)
 
 /-- the array classification of `parse_rule` (text path), on the element shapes -/
 def classifyArray (elements : List Shape) : Except InferErr Shape :=
@@ -150,15 +155,11 @@ inductive SourcesErr where
   | emptyFile
 deriving Repr, Inhabited
 
-/-- `from_sources` at the level of document trees -/
+/-- `from_sources` at the level of document trees: infer each source in order (first failure wins),
+then fold `merger` from the left -/
 def fromSourcesDoc (h : List Doc) : Except SourcesErr Shape :=
-  let rec go : List Doc → List Shape → Except SourcesErr (List Shape)
-    | [], acc => .ok acc.reverse
-    | d :: ds, acc => match inferDoc d with
-      | .error e => .error (.infer e)
-      | .ok s => go ds (s :: acc)
-  match go h [] with
-  | .error e => .error e
+  match inferDocList h with
+  | .error e => .error (.infer e)
   | .ok ss => match merge ss with
     | .error _ => .error .emptyFile
     | .ok s => .ok s
